@@ -143,6 +143,7 @@ type muxOpSpec struct {
 	Kind string `json:"op"`             // I ingress, A accept, C close, X parent cancel
 	Hold bool   `json:"hold,omitempty"` // park at the operation's first hook point until the next operation has settled
 	Err  bool   `json:"err,omitempty"`  // ingress only: the connection is handed in together with a non-nil error
+	Nil  bool   `json:"nil,omitempty"`  // ingress only: an error-only entry (nil connection plus error), as a failing source produces
 }
 
 // errMuxIngress accompanies connections that are ingressed with an error (IngressConn passes both through).
@@ -162,6 +163,9 @@ func (m muxCase) String() string {
 		}
 		if o.Err {
 			sb.WriteString("!")
+		}
+		if o.Nil {
+			sb.WriteString("0")
 		}
 	}
 	return sb.String() + "/" + m.Release
@@ -303,7 +307,7 @@ func runMuxCase(c *engine.Ctx, mc muxCase, stats *muxStats) {
 	for i, sp := range mc.Ops {
 		op := &muxOp{spec: sp, idx: counts[sp.Kind], release: make(chan struct{})}
 		counts[sp.Kind]++
-		if sp.Kind == "I" {
+		if sp.Kind == "I" && !sp.Nil {
 			op.conn = &acctConn{id: i}
 			conns = append(conns, op.conn)
 		}
@@ -332,7 +336,9 @@ func runMuxCase(c *engine.Ctx, mc muxCase, stats *muxStats) {
 			}()
 			switch op.spec.Kind {
 			case "I":
-				if op.spec.Err {
+				if op.spec.Nil {
+					l.IngressConn(nil, errMuxIngress)
+				} else if op.spec.Err {
 					l.IngressConn(op.conn, errMuxIngress)
 				} else {
 					l.IngressConn(op.conn, nil)
@@ -638,6 +644,10 @@ func runMuxStress(c *engine.Ctx, round int, seed int64) {
 		conns = append(conns, cn)
 		wg.Add(1)
 		withErr := rng.Intn(5) == 0
+		if rng.Intn(12) == 0 {
+			wg.Add(1)
+			go guard(func() { <-start; l.IngressConn(nil, errMuxIngress) })
+		}
 		go guard(func() {
 			<-start
 			if withErr {
@@ -850,7 +860,11 @@ func runMux(c *engine.Ctx) engine.Result {
 		some := false
 		for _, o := range mc.Ops {
 			if o.Kind == "I" && rng.Intn(2) == 0 {
-				o.Err = true
+				if rng.Intn(3) == 0 {
+					o.Nil = true
+				} else {
+					o.Err = true
+				}
 				some = true
 			}
 			cp.Ops = append(cp.Ops, o)
